@@ -119,6 +119,8 @@ theorem handler_app (u : Unit) (e : Ev) : (∀ h ∈ u.before e, ∀ b, App (h b
     · exact App.rememberAfterAuth _
     · exact App.rememberAfterReset _
     · exact App.expireAfterAuth _
+    · exact App.expireAfterAuth _
+    · exact App.expireAfterAuth _
 
 theorem App.fireBefore (e : Ev) : App (M.fireBefore e) := by
   unfold M.fireBefore
